@@ -116,7 +116,10 @@ def name_oracle(case: dict):
     """create_target_file_name against the documented derivation: same directory, scope suffix, prefix once, extension"""
     dictIO = native.dictio()
     name, prefix, scope, output = case["name"], case["prefix"], case["scope"], case["output"]
-    r = dictIO.create_target_file_name(Path("/some/dir") / name, prefix=prefix, scope=scope or None, output=output)
+    try:
+        r = dictIO.create_target_file_name(Path("/some/dir") / name, prefix=prefix, scope=scope or None, output=output)
+    except Exception as e:  # noqa: BLE001
+        return ("name-raises", f"create_target_file_name({name!r}, prefix={prefix!r}, scope={scope!r}, output={output!r}) raised {type(e).__name__}: {e}")
     if r.parent != Path("/some/dir"):
         return ("name-dir", f"create_target_file_name({name!r}, scope={scope!r}) left the source directory: {r}")
     exp_name = spec_target_name(name, prefix, scope, output)
